@@ -10,7 +10,7 @@ import os
 PROP = "C06"
 PROPS_MODULE = "BiotiteModel.Props.C06"
 DRIVER_MODULE = "BiotiteModel.Driver.C06"
-EXT_MODULES = []
+EXT_MODULES = ["biotite.structure.io.pdbx.encoding"]
 GEN_FILES = ["BiotiteModel/Gen/C06.lean"]
 RULE = ("rectangular string tables (1-4 columns x 1-5 rows, 1-2 blocks, 1-3 categories) from a grammar biased to awkward "
         "values (every special first character / reserved word / quote combination / blank / '.' '?' mask state / line "
